@@ -592,4 +592,52 @@ theorem opsLeaves_read_back : ∀ ops : List Op, Op.validAll ops = true →
       | flush => simp [opLeaves] at hl
     · exact opsLeaves_read_back os hv.2 l hl
 
+/-! ### `write_all` delivers the whole slice whatever the sink accepts per call -/
+
+theorem writeAll_spec (k j : Nat) (hj : j ≠ 1) : ∀ (fuel : Nat) (st : SinkSt) (buf : ByteArray),
+    2 * buf.size + (if j > 0 ∧ (st.calls + 1) % j = 0 then 1 else 0) < fuel →
+    ∃ st', writeAll k j fuel st buf = .ok st' ∧ st'.data = st.data ++ buf := by
+  intro fuel
+  induction fuel with
+  | zero => intro st buf h; omega
+  | succ fuel ih =>
+    intro st buf h
+    by_cases h0 : buf.size = 0
+    · refine ⟨st, by simp [writeAll, h0], ?_⟩
+      rw [ByteArray.size_eq_zero_iff.mp h0, ByteArray.append_empty]
+    · by_cases hi : j > 0 ∧ (st.calls + 1) % j = 0
+      · -- interrupted: the next call is not (j ≥ 2)
+        have hnext : ¬ (j > 0 ∧ (st.calls + 1 + 1) % j = 0) := by
+          intro hn
+          have h2 : 2 ≤ j := by omega
+          have a := hi.2
+          have b := hn.2
+          have : (st.calls + 1 + 1) % j = ((st.calls + 1) % j + 1 % j) % j := Nat.add_mod _ _ _
+          rw [a, Nat.mod_eq_of_lt (by omega : 1 < j)] at this
+          rw [Nat.zero_add, Nat.mod_eq_of_lt (by omega : 1 < j)] at this
+          omega
+        rw [if_pos hi] at h
+        obtain ⟨st', e, d⟩ := ih ⟨st.data, st.calls + 1⟩ buf (by simp only [if_neg hnext]; omega)
+        refine ⟨st', ?_, d⟩
+        simp only [writeAll, if_neg h0, sinkWrite, if_pos hi]
+        exact e
+      · rw [if_neg hi] at h
+        -- accepted `m + 1 ≥ 1` bytes
+        obtain ⟨m, hm⟩ : ∃ m, (if k = 0 then buf.size else min buf.size k) = m + 1 := by
+          refine ⟨(if k = 0 then buf.size else min buf.size k) - 1, ?_⟩
+          split <;> omega
+        have hnle : m + 1 ≤ buf.size := by
+          rw [← hm]; split <;> omega
+        have hsz : (buf.extract (m + 1) buf.size).size = buf.size - (m + 1) := by
+          rw [ByteArray.size_extract]; omega
+        obtain ⟨st', e, d⟩ := ih ⟨st.data ++ buf.extract 0 (m + 1), st.calls + 1⟩ (buf.extract (m + 1) buf.size)
+          (by simp only [hsz]; split <;> omega)
+        refine ⟨st', ?_, ?_⟩
+        · simp only [writeAll, if_neg h0, sinkWrite, if_neg hi, hm]
+          exact e
+        · rw [d]
+          simp only
+          rw [ByteArray.append_assoc, ByteArray.extract_append_extract, Nat.min_eq_left (by omega),
+            Nat.max_eq_right hnle, ByteArray.extract_zero_size]
+
 end Rlib.Writer
